@@ -83,7 +83,7 @@ def history(draw, classes=None, max_dim=3, max_ops=30, same_class_pairs=True, ex
         specB = dict(spec, metric=draw(zoo.metric_spec(n, ["scaled", "diag", "dense", "chol_lower", "eig"])))
         b_from = draw(st.sampled_from(["copy", "deepcopy", "pickle"]))
     ops = []
-    pool_ops = OPS + EXT_OPS if extended else (OPS + ["set_metric", "adapt_metric"] if metric_ops else OPS)
+    pool_ops = OPS + EXT_OPS if extended else (OPS + ["set_metric", "adapt_metric", "copy_system"] if metric_ops else OPS)
     for _ in range(draw(st.integers(3, max_ops))):
         kind = draw(st.sampled_from(pool_ops))
         op = {"op": kind, "i": draw(st.integers(0, 7)), "j": draw(st.integers(0, 63))}
@@ -94,6 +94,15 @@ def history(draw, classes=None, max_dim=3, max_ops=30, same_class_pairs=True, ex
             if op["spec"]["dim"] != n:
                 continue
             ops.append(op)
+            ops.append({"op": "call_all", "i": op["i"], "j": 0, "sys": "B"})
+            continue
+        if kind == "copy_system":
+            # the second system becomes a copy (shallow / deep / pickled, as sent to worker processes) of the first one
+            # AFTER the first one has been used; the copy must memoise like any other system
+            op["how"] = draw(st.sampled_from(["copy", "deepcopy", "pickle"]))
+            ops.append({"op": "call_all", "i": op["i"], "j": 0, "sys": "A"})
+            ops.append(op)
+            ops.append({"op": "call_all", "i": op["i"], "j": 0, "sys": "B"})
             ops.append({"op": "call_all", "i": op["i"], "j": 0, "sys": "B"})
             continue
         if kind == "adapt_metric":
